@@ -63,6 +63,10 @@ class Guard:
                     if d is None:
                         return None
                 return d
+            # `a and b` is false / `a or b` is true: nothing can be added, but the branch is infeasible
+            # when every operand is already known to contradict it
+            if all(self._assume(d, v, truth) is None for v in test.values):
+                return None
             return d
         if isinstance(test, ast.Name):
             var = test.id
